@@ -48,7 +48,7 @@ type C8Fn2 struct {
 type C8Pr2 struct {
 	Fail *int `json:"fail,omitempty"`
 	Sel  bool
-	D    int
+	D    int // D > 0: same bucket of width D;  D == 0: a<b (the order closure of merge)
 }
 type C8Stage struct {
 	Kind string // map accept combine number iir compact skip top
@@ -61,12 +61,15 @@ type C8Stage struct {
 	N    int
 }
 type C8Pipe struct {
-	Kind string // numbers list stage app
+	Kind string // numbers list stage app cross merge
 	N    int
 	L    []int    `json:",omitempty"`
 	S    *C8Stage `json:",omitempty"`
 	P    *C8Pipe  `json:",omitempty"`
-	Q    *C8Pipe  `json:",omitempty"`
+	Q    *C8Pipe  `json:",omitempty"` // second operand of + / cross / merge: a pipeline of its own
+	ID   int      `json:",omitempty"` // closure of cross / merge
+	F2   *C8Fn2   `json:",omitempty"` // cross: g(a,b)
+	P2   *C8Pr2   `json:",omitempty"` // merge: less(a,b)
 }
 type C8Term struct {
 	Kind string // none first single size present indexWhere contains reduce
@@ -137,6 +140,15 @@ func (f *C8Fn2) Expr(id int) string {
 
 func (p *C8Pr2) Expr(id int) string {
 	t := fmt.Sprintf("%s(%d,a,b)", tick2Name(p.Sel), id)
+	if p.D == 0 {
+		if s, ok := failWrap(p.Fail, t, "a<b"); ok {
+			return "(a,b)->" + s
+		}
+		if p.Sel {
+			return fmt.Sprintf("(a,b)->a<%s", t)
+		}
+		return fmt.Sprintf("(a,b)->%s<b", t)
+	}
 	if s, ok := failWrap(p.Fail, t, fmt.Sprintf("(a-a%%%d)=(b-b%%%d)", p.D, p.D)); ok {
 		return "(a,b)->" + s
 	}
@@ -184,6 +196,10 @@ func (p *C8Pipe) Expr() string {
 		return p.P.Expr() + p.S.Expr()
 	case "app":
 		return "(" + p.P.Expr() + "+" + p.Q.Expr() + ")"
+	case "cross":
+		return p.P.Expr() + ".cross(" + p.Q.Expr() + "," + p.F2.Expr(p.ID) + ")"
+	case "merge":
+		return p.P.Expr() + ".merge(" + p.Q.Expr() + "," + p.P2.Expr(p.ID) + ")"
 	}
 	panic("pipe kind " + p.Kind)
 }
@@ -279,6 +295,10 @@ func (p *C8Pipe) Coq() string {
 		return "(DList " + coqZs(p.L) + ")"
 	case "stage":
 		return "(DStage " + p.S.Coq() + " " + p.P.Coq() + ")"
+	case "cross":
+		return fmt.Sprintf("(DCross %d%%N %s %s %s)", p.ID, p.F2.Coq(), p.P.Coq(), p.Q.Coq())
+	case "merge":
+		return fmt.Sprintf("(DMerge %d%%N %s %s %s)", p.ID, p.P2.Coq(), p.P.Coq(), p.Q.Coq())
 	}
 	return "(DApp " + p.P.Coq() + " " + p.Q.Coq() + ")"
 }
@@ -321,6 +341,7 @@ type c8Obs struct {
 	NumCPU   int
 }
 
+var c8Settle bool
 var c8mu sync.Mutex
 var c8log []c8Event
 var c8gid uint64
@@ -433,6 +454,20 @@ func c8Eval(exp string, limit time.Duration) c8Obs {
 	}()
 	select {
 	case o := <-done:
+		if c8Settle {
+			// goroutines of multiUse/merge may still finish the element they are working on
+			last := -1
+			for i := 0; i < 25; i++ {
+				c8mu.Lock()
+				n := len(c8log)
+				c8mu.Unlock()
+				if n == last {
+					break
+				}
+				last = n
+				time.Sleep(2 * time.Millisecond)
+			}
+		}
 		c8mu.Lock()
 		o.Log = append([]c8Event{}, c8log...)
 		o.Parallel = c8par
@@ -532,6 +567,9 @@ func (p *C8Pr2) apply(id int, a, b int, calls c8Calls) (bool, bool) {
 	}
 	if hit(p.Fail, s) {
 		return false, false
+	}
+	if p.D == 0 {
+		return a < b, true
 	}
 	return a-a%p.D == b-b%p.D, true
 }
@@ -641,6 +679,64 @@ func (p *C8Pipe) eager(n int, calls c8Calls) c8Partial {
 		return c8Partial{items: p.L, status: 1}
 	case "stage":
 		return p.S.eager(p.P.eager(n, calls), calls)
+	case "cross":
+		// row by row; the second list is iterated anew for every row; while it may go on only the first row is known
+		a := p.P.eager(n, calls)
+		out := c8Partial{}
+		for _, av := range a.items {
+			b := p.Q.eager(n, calls)
+			for _, bv := range b.items {
+				y, ok := p.F2.apply(p.ID, av, bv, calls)
+				if !ok {
+					out.status = 2
+					return out
+				}
+				out.items = append(out.items, y)
+			}
+			if b.status != 1 {
+				out.status = b.status
+				return out
+			}
+		}
+		out.status = a.status
+		return out
+	case "merge":
+		a, b := p.P.eager(n, calls), p.Q.eager(n, calls)
+		out := c8Partial{}
+		i, j := 0, 0
+		for {
+			switch {
+			case i < len(a.items) && j < len(b.items):
+				lt, ok := p.P2.apply(p.ID, a.items[i], b.items[j], calls)
+				if !ok {
+					out.status = 2
+					return out
+				}
+				if lt {
+					out.items = append(out.items, a.items[i])
+					i++
+				} else {
+					out.items = append(out.items, b.items[j])
+					j++
+				}
+			case i >= len(a.items):
+				if a.status == 1 {
+					out.items = append(out.items, b.items[j:]...)
+					out.status = b.status
+				} else {
+					out.status = a.status
+				}
+				return out
+			default:
+				if b.status == 1 {
+					out.items = append(out.items, a.items[i:]...)
+					out.status = a.status
+				} else {
+					out.status = b.status
+				}
+				return out
+			}
+		}
 	}
 	a := p.P.eager(n, calls)
 	if a.status != 1 {
@@ -747,7 +843,21 @@ func (p *C8Pipe) ids(out *[]int) {
 	case "app":
 		p.P.ids(out)
 		p.Q.ids(out)
+	case "cross", "merge":
+		*out = append(*out, p.ID)
+		p.P.ids(out)
+		p.Q.ids(out)
 	}
+}
+
+func (p *C8Pipe) has(kind string) bool {
+	found := false
+	p.walk(func(x *C8Pipe) {
+		if x.Kind == kind {
+			found = true
+		}
+	})
+	return found
 }
 
 func (p *C8Pipe) shape() string {
@@ -761,6 +871,8 @@ func (p *C8Pipe) shape() string {
 		return "list"
 	case "stage":
 		return p.P.shape() + "." + p.S.Kind
+	case "cross", "merge":
+		return p.P.shape() + "." + p.Kind + "(" + p.Q.shape() + ")"
 	}
 	return "(" + p.P.shape() + "+" + p.Q.shape() + ")"
 }
@@ -769,7 +881,7 @@ func (p *C8Pipe) stages() int {
 	switch p.Kind {
 	case "stage":
 		return 1 + p.P.stages()
-	case "app":
+	case "app", "cross", "merge":
 		return 1 + p.P.stages() + p.Q.stages()
 	}
 	return 0
@@ -820,8 +932,31 @@ func c8Sig(c *C8Case, symptom string) string {
 		})
 		return "multiUse | " + class + " | " + symptom
 	}
+	if symptom == "excess-demand" && c.Pipe.has("merge") {
+		// each operand of merge is read by a goroutine that is one element OF THE OPERAND ahead
+		drops := false
+		c.Pipe.walk(func(p *C8Pipe) {
+			if p.Kind == "merge" {
+				for _, o := range []*C8Pipe{p.P, p.Q} {
+					o.walk(func(x *C8Pipe) {
+						if x.Kind == "stage" && (x.S.Kind == "accept" || x.S.Kind == "compact") {
+							drops = true
+						}
+					})
+				}
+			}
+		})
+		if drops {
+			return "merge | operand behind a dropping stage (accept/compact) | excess-demand"
+		}
+	}
 	return c.Term.Kind + " | " + c.Pipe.shape() + " | " + symptom
 }
+
+// conc: the library runs part of the evaluation on goroutines of its own whatever the load (multiUse: one per
+// consumer; merge: one per operand, iterator.ToChan, each one element ahead): the order of ticks is not
+// deterministic, the counts are; such cases are observed on one CPU and judged by the Go oracle only
+func (c *C8Case) conc() bool { return c.Multi != nil || c.Pipe.has("merge") }
 
 func (r *c8Run) run(c *C8Case) {
 	need, want, needCalls, ok := c.oracle()
@@ -859,6 +994,7 @@ func c8Observe(exp string, multi bool) c8Obs {
 	if os.Getenv("C08_PINNED") != "" {
 		limit = 5 * time.Second // one CPU shared with whatever else the machine runs
 	}
+	c8Settle = multi
 	obs := c8Eval(exp, limit)
 	if multi {
 		obs.Parallel = false // the consumers of multiUse run on goroutines by design
@@ -872,6 +1008,10 @@ func c8Observe(exp string, multi bool) c8Obs {
 type c8ChildIn struct {
 	Exprs []string
 	Multi []bool
+	Fresh []bool // continue in a fresh process after this evaluation
+	// ticks seen while generating the first expression are final (the process is fresh: they cannot come from
+	// goroutines of an earlier evaluation)
+	FirstFinal bool
 }
 type c8ChildOut struct {
 	I   int
@@ -894,6 +1034,11 @@ func cmdC08Child(seed int64, tier, dir string) {
 	for i, e := range in.Exprs {
 		obs := c8Observe(e, in.Multi[i])
 		obs.NumCPU = runtime.NumCPU()
+		if obs.Kind == "generr" && strings.Contains(obs.Err, "closures were evaluated while generating") && !(i == 0 && in.FirstFinal) {
+			// possibly ticks of goroutines an earlier evaluation left behind: look again in a fresh process
+			out.Close()
+			os.Exit(6)
+		}
 		line, _ := json.Marshal(c8ChildOut{I: i, Obs: obs})
 		out.Write(append(line, '\n'))
 		if obs.Kind == "timeout" {
@@ -901,8 +1046,8 @@ func cmdC08Child(seed int64, tier, dir string) {
 			out.Close()
 			os.Exit(3)
 		}
-		if obs.Parallel {
-			// worker goroutines of this evaluation may still be ticking: continue in a fresh process
+		if obs.Parallel || in.Fresh[i] {
+			// goroutines of this evaluation may still be ticking: continue in a fresh process
 			out.Close()
 			os.Exit(4)
 		}
@@ -918,11 +1063,16 @@ func (r *c8Run) runChildren(jobs []*c8Job, pinned bool, dir string) {
 		fatal("c08: %v", err)
 	}
 	os.MkdirAll(dir, 0o755)
+	firstFinal := true
 	for restarts := 0; len(jobs) > 0 && !r.aborted; restarts++ {
-		in := c8ChildIn{}
+		in := c8ChildIn{FirstFinal: firstFinal}
+		firstFinal = true
 		for _, j := range jobs {
 			in.Exprs = append(in.Exprs, j.exp)
-			in.Multi = append(in.Multi, j.c.Multi != nil)
+			in.Multi = append(in.Multi, j.c.conc())
+			// merge reads its operands on goroutines which go on evaluating closures after the call has returned
+			// until their list yields again (never, behind a filter that lets nothing more through)
+			in.Fresh = append(in.Fresh, j.c.Pipe.has("merge"))
 		}
 		bs, _ := json.Marshal(in)
 		os.WriteFile(filepath.Join(dir, "child_in.json"), bs, 0o644)
@@ -961,6 +1111,11 @@ func (r *c8Run) runChildren(jobs []*c8Job, pinned bool, dir string) {
 			}
 			return
 		}
+		if ee, ok := runErr.(*exec.ExitError); ok && ee.ExitCode() == 6 && done > 0 {
+			jobs = jobs[done:]
+			restarts--
+			continue // jobs[0] is now first in a fresh process
+		}
 		if ee, ok := runErr.(*exec.ExitError); ok && (ee.ExitCode() == 4 || ee.ExitCode() == 3) && done > 0 {
 			// the child stopped on purpose after an observation in parallel mode
 			jobs = jobs[done:]
@@ -993,7 +1148,7 @@ func (r *c8Run) evaluate(dir string) {
 	//    depend on the scheduler, so these cases are observed on one CPU only (NumCPU()==1: plain Map/Filter)
 	var multi, plain []*c8Job
 	for _, j := range r.jobs {
-		if j.c.Multi != nil && tsErr == nil {
+		if j.c.conc() && tsErr == nil {
 			multi = append(multi, j)
 		} else {
 			plain = append(plain, j)
@@ -1023,6 +1178,9 @@ func (r *c8Run) evaluate(dir string) {
 				j.first = "parallel"
 			}
 			again = append(again, j)
+			if r.canPin {
+				j.have = false // judged only if it can be observed again on one CPU
+			}
 		}
 	}
 	if len(again) > 0 && !r.aborted {
@@ -1046,7 +1204,7 @@ func (r *c8Run) judge(j *c8Job) {
 	}
 	switch {
 	case j.first == "multiUse":
-		r.sum.Count("evaluated", "multiUse cases: on one CPU (taskset -c 0)")
+		r.sum.Count("evaluated", "multiUse and merge cases: on one CPU (taskset -c 0)")
 	case j.first != "":
 		r.sum.Count("evaluated", "on one CPU (taskset -c 0: Map/Filter instead of MapAuto/FilterAuto) after "+j.first+" in the default configuration")
 	default:
@@ -1123,6 +1281,9 @@ func (r *c8Run) judge(j *c8Job) {
 	default:
 		for _, i := range c08SortedIntKeys(counts) {
 			slack := 1
+			if c.Pipe.has("merge") {
+				slack = 2 // iterator.ToChan: each operand one element ahead
+			}
 			if obs.Parallel {
 				slack = 1 + 3*runtime.NumCPU() // feeder, workers and the reorder buffer of iterator.initParallel
 			}
@@ -1158,6 +1319,10 @@ func (r *c8Run) judge(j *c8Job) {
 		r.sum.Skipped["multiUse-judged-by-go-oracle-only"]++
 		return
 	}
+	if c.conc() {
+		r.sum.Skipped["merge-judged-by-go-oracle-only(each operand is read one element ahead by a goroutine)"]++
+		return
+	}
 	if obs.Parallel {
 		// a stage switched to parallel mode in all attempts: order and read-ahead depend on the schedule; bound checked above only
 		r.sum.Skipped["parallel-mode-not-compared-with-sequential-model"]++
@@ -1186,6 +1351,9 @@ func c08SortedIntKeys(m map[int]int) []int {
 func (c *C8Case) failClass() string {
 	n := 0
 	c.Pipe.walk(func(p *C8Pipe) {
+		if (p.F2 != nil && p.F2.Fail != nil) || (p.P2 != nil && p.P2.Fail != nil) {
+			n++
+		}
 		if p.Kind == "stage" {
 			s := p.S
 			if (s.F1 != nil && s.F1.Fail != nil) || (s.P1 != nil && s.P1.Fail != nil) || (s.F2 != nil && s.F2.Fail != nil) || (s.P2 != nil && s.P2.Fail != nil) {
@@ -1275,7 +1443,43 @@ func c8Templates() []c8Template {
 		{"map.top.map.combine", func(j int) *C8Pipe {
 			return c8St(c8St(c8St(big(), stTop(j+3)), stMap(2, 1, 0)), stCombine(3))
 		}},
+		// ---- binary stages whose SECOND operand is an instrumented lazy pipeline (index 16 and up)
+		{"list.map.cross(long.map)", func(j int) *C8Pipe {
+			return c8Cross(c8St(c8Src("list", 4), stMap(5, 1, 0)), long(6))
+		}},
+		{"big.map.cross(numbers(3).map)", func(j int) *C8Pipe {
+			return c8Cross(big(), c8St(c8Src("numbers", 3), stMap(6, 1, 0)))
+		}},
+		{"numbers(5).map.cross(long.map.accept).map", func(j int) *C8Pipe {
+			return c8St(c8Cross(c8St(c8Src("numbers", 5), stMap(5, 1, 0)), c8St(long(6), stAccept(4, C8Pr1{Kind: "mod", M: 3, R: 1}))), stMap(2, 1, 1))
+		}},
+		{"list.map.cross(long.map.skip.combine)", func(j int) *C8Pipe {
+			return c8Cross(c8St(c8Src("list", 3), stMap(5, 2, 0)), c8St(c8St(long(6), stSkip(2)), stCombine(4)))
+		}},
+		{"big.map.accept.cross(list.map.top)", func(j int) *C8Pipe {
+			return c8Cross(c8St(big(), stAccept(2, C8Pr1{Kind: "mod", M: 2, R: 1})), c8St(c8St(c8Src("list", 5), stMap(6, 1, 0)), stTop(2)))
+		}},
+		{"(numbers(2).map+long.map).cross(long.map)", func(j int) *C8Pipe {
+			l := &C8Pipe{Kind: "app", P: c8St(c8Src("numbers", 2), stMap(5, 1, 0)), Q: long(1)}
+			return c8Cross(l, long(6))
+		}},
+		{"big.map.merge(big.map)", func(j int) *C8Pipe {
+			return c8Merge(c8St(c8Src("big", 0), stMap(1, 2, 0)), c8St(c8Src("big", 0), stMap(6, 3, 1)))
+		}},
+		{"list.map.merge(long.map.accept)", func(j int) *C8Pipe {
+			return c8Merge(c8St(c8Src("numbers", 6), stMap(5, 7, 0)), c8St(long(6), stAccept(4, C8Pr1{Kind: "mod", M: 2, R: 0})))
+		}},
 	}
+}
+
+// a long (not endless) instrumented list: a second operand that must not be evaluated beyond what is asked for
+func long(id int) *C8Pipe { return c8St(c8Src("numbers", 5000), stMap(id, 1, 0)) }
+
+func c8Cross(p, q *C8Pipe) *C8Pipe {
+	return &C8Pipe{Kind: "cross", ID: 7, F2: &C8Fn2{P: 100, Q: 1}, P: p, Q: q}
+}
+func c8Merge(p, q *C8Pipe) *C8Pipe {
+	return &C8Pipe{Kind: "merge", ID: 7, P2: &C8Pr2{D: 0}, P: p, Q: q}
 }
 
 // the items the lazy part would produce from a generous prefix, without failures (to aim the consumer)
@@ -1321,7 +1525,19 @@ func cloneTerm(t *C8Term) *C8Term {
 func (c *C8Case) setFail(id int, v int, sel bool) bool {
 	okk := false
 	c.Pipe.walk(func(p *C8Pipe) {
-		if p.Kind != "stage" || okk {
+		if okk {
+			return
+		}
+		if (p.Kind == "cross" || p.Kind == "merge") && p.ID == id {
+			if p.F2 != nil {
+				p.F2.Fail, p.F2.Sel = ip(v), sel
+			} else {
+				p.P2.Fail, p.P2.Sel = ip(v), sel
+			}
+			okk = true
+			return
+		}
+		if p.Kind != "stage" {
 			return
 		}
 		s := p.S
@@ -1452,6 +1668,33 @@ func (r *Rng) c8Random() *C8Case {
 		case 7:
 			p = c8St(p, stTop(r.Pick(30)-1))
 		case 8:
+			if r.Chance(0.5) {
+				// cross / merge with an instrumented lazy pipeline as the other operand
+				id += 3
+				var q *C8Pipe
+				switch r.Pick(3) {
+				case 0:
+					q = c8St(c8Src("numbers", 5000), stMap(id-2, 1, r.Pick(3)))
+				case 1:
+					q = c8St(c8St(c8Src("numbers", 1+r.Pick(6)), stMap(id-2, 1, 0)), stTop(r.Pick(4)))
+				default:
+					q = c8St(c8St(c8Src("big", 0), stMap(id-2, 1, 0)), stAccept(id-1, r.c8Pred()))
+				}
+				kind := "cross"
+				if r.Chance(0.3) {
+					kind = "merge"
+				}
+				a, b := p, q
+				if r.Chance(0.3) {
+					a, b = q, p
+				}
+				if kind == "cross" {
+					p = &C8Pipe{Kind: "cross", ID: id, F2: &C8Fn2{P: 1 + r.Pick(3), Q: 1}, P: a, Q: b}
+				} else {
+					p = &C8Pipe{Kind: "merge", ID: id, P2: &C8Pr2{D: 0}, P: a, Q: b}
+				}
+				break
+			}
 			id++
 			l := c8St(c8Src([]string{"numbers", "list"}[r.Pick(2)], r.Pick(6)), stMap(id, 1, 50))
 			if r.Chance(0.5) {
@@ -1536,12 +1779,28 @@ func c8Corpus() []*C8Case {
 		{Pipe: c8St(c8Src("list", 0), stMap(1, 1, 0)), Term: &C8Term{Kind: "single"}},
 		{Pipe: c8Src("list", 3), Term: &C8Term{Kind: "first"}},
 		{Pipe: c8Src("list", 3), Term: &C8Term{Kind: "single"}},
+		// cross: column j of the second list is evaluated only when a row reaches column j
+		// (a cross that stores its second list first evaluates all 5000 elements here)
+		{Pipe: c8Cross(c8St(c8Src("list", 3), stMap(5, 1, 0)), long(6)), Term: &C8Term{Kind: "first"}},
+		{Pipe: c8St(c8Cross(c8St(c8Src("list", 3), stMap(5, 1, 0)), long(6)), stTop(3)), Term: &C8Term{Kind: "size"}},
+		{Pipe: c8Cross(c8St(c8Src("list", 3), stMap(5, 1, 0)), long(6)), Term: &C8Term{Kind: "present", ID: 20, P1: &C8Pr1{Kind: "eq", T: 304}}},
+		{Pipe: c8Cross(c8St(c8Src("list", 3), stMap(5, 1, 0)), long(6)), Term: &C8Term{Kind: "contains", X: 302}},
+		{Pipe: c8Cross(c8St(c8Src("list", 3), stMap(5, 1, 0)), long(6)), Term: &C8Term{Kind: "none"}},
+		{Pipe: c8Cross(big(), c8St(failAt(c8St(c8Src("numbers", 50), stMap(6, 1, 0)), 4), stTop(2))), Term: &C8Term{Kind: "indexWhere", ID: 20, P1: &C8Pr1{Kind: "eq", T: 301}},
+			Note: "cross: failure in the second list behind the columns the rows reach"},
+		{Pipe: c8Cross(c8St(c8Src("numbers", 3), stMap(5, 1, 0)), c8St(c8Src("numbers", 2), stMap(6, 1, 0))), Term: &C8Term{Kind: "size"}},
+		{Pipe: c8Cross(c8St(c8Src("numbers", 3), stMap(5, 1, 0)), c8St(c8Src("numbers", 0), stMap(6, 1, 0))), Term: &C8Term{Kind: "first"}},
+		{Pipe: c8Cross(c8St(c8Src("numbers", 0), stMap(5, 1, 0)), long(6)), Term: &C8Term{Kind: "size"}},
+		// merge: both operands lazy, stopped early
+		{Pipe: c8Merge(c8St(c8Src("big", 0), stMap(1, 2, 0)), c8St(c8Src("big", 0), stMap(6, 3, 1))), Term: &C8Term{Kind: "first"}},
+		{Pipe: c8St(c8Merge(c8St(c8Src("big", 0), stMap(1, 2, 0)), long(6)), stTop(5)), Term: &C8Term{Kind: "size"}},
+		{Pipe: c8Merge(c8St(c8Src("numbers", 3), stMap(5, 2, 0)), long(6)), Term: &C8Term{Kind: "present", ID: 20, P1: &C8Pr1{Kind: "eq", T: 9}}},
 	}
 }
 
 func cmdC08(seed int64, tier, outDir string) {
 	sum := NewSummary("C08", seed, tier)
-	sum.Rule = "pipelines source (numbers(10^11), numbers(n), list literal, list+list) -> 1..5 lazy stages (map accept combine number iir compact skip top +) -> consumer (first single size present indexWhere ~ reduce, or none), every closure starting with an impure tick host call; decisive output position swept 0..40 per shape, a failing element placed at offsets -3..+3 around the decisive call of each closure; non-trivial = at least 2 lazy stages and a decisive source prefix >= 1; distinct by (consumer, stage chain shape, decisive prefix length)"
+	sum.Rule = "pipelines source (numbers(10^11), numbers(n), list literal, list+list) -> 1..5 lazy stages (map accept combine number iir compact skip top + cross merge; the other operand of + / cross / merge is an instrumented lazy pipeline of its own, demand counted on both operands) -> consumer (first single size present indexWhere ~ reduce, or none), every closure starting with an impure tick host call; decisive output position swept 0..40 per shape, a failing element placed at offsets -3..+3 around the decisive call of each closure; non-trivial = at least 2 lazy stages and a decisive source prefix >= 1; distinct by (consumer, stage chain shape, decisive prefix length)"
 	cw := NewCaseWriter(outDir, "From P2 Require Import Base.Prelude Lib.Stream Run.C08Run.", "c08_case", "c08_id", "c08_im", "c08_is", 320)
 	cw.prelude = "Local Open Scope Z_scope.\n"
 	run := &c8Run{sum: sum, cw: cw}
@@ -1570,14 +1829,20 @@ func cmdC08(seed int64, tier, outDir string) {
 	}
 	// systematic sweep: shape x decisive position x failure offset
 	jmax, jstep := 40, 1
-	failEvery := 12 // failure variants for every twelfth base case in the quick tier, all in thorough
+	failEvery := 16 // failure variants for every sixteenth base case in the quick tier, all in thorough
 	if tier == "thorough" {
 		failEvery = 1
 	}
 	for ti, tp := range c8Templates() {
 		for j := 0; j <= jmax; j += jstep {
-			if tier != "thorough" && ti >= 6 && (j+ti)%2 == 1 {
-				continue // quick tier: every position for the six basic shapes, every second one for the others
+			if tier != "thorough" && ti >= 6 && ti < 16 && (j+ti)%3 != 0 {
+				continue // quick tier: every position for the six basic shapes, every third one for the others
+			}
+			if tier != "thorough" && ti >= 16 && ti < 22 && j%4 != ti%4 {
+				continue // ... every fourth one for cross
+			}
+			if tier != "thorough" && ti >= 22 && j%8 != ti%8 {
+				continue // ... and every eighth one for merge (each merge case needs a process of its own)
 			}
 			lazy := tp.build(j)
 			var bases []*C8Case
@@ -1631,8 +1896,11 @@ func cmdC08(seed int64, tier, outDir string) {
 			jaStep = 2
 		}
 		for ja := 0; ja <= 40; ja += jaStep {
-			for _, jb := range []int{0, ja / 2, ja + 3} {
+			for _, jb := range []int{ja / 2, ja + 3} {
 				lazy := tp.build(ja)
+				if lazy.has("merge") {
+					continue // two kinds of read-ahead on top of each other: not judged
+				}
 				ta := c8Consumers(lazy, ja)
 				tb := c8Consumers(lazy, jb)
 				if len(ta) == 0 || len(tb) == 0 {
